@@ -35,6 +35,18 @@ fn inline_wake_case(prop: &str, cases: &mut dyn Write, meta: &mut dyn Write) {
     writeln!(meta, "{}\t{}\t{}", id, c.class, checks.join(",")).unwrap();
 }
 
+/// The writer dropped while its thread unwinds from a panic (stream_engine::unwind_drop_checks).
+fn unwind_drop_case(prop: &str, cases: &mut dyn Write, meta: &mut dyn Write) {
+    if watch::gate("H:writer-dropped-while-unwinding").is_none() {
+        return;
+    }
+    let c = once_engine::OnceCase { kind: 0, data: vec![], polls: 2, class: "H:writer-dropped-while-unwinding".into() };
+    let checks: Vec<String> = stream_engine::unwind_drop_checks().into_iter().map(|f| format!("{}:{}", prop, f)).collect();
+    let id = format!("{}-U0", prop);
+    writeln!(cases, "once {} {}", id, once_engine::run(&c).to_string()).unwrap();
+    writeln!(meta, "{}\t{}\t{}", id, c.class, checks.join(",")).unwrap();
+}
+
 /// serve() on entities dated before 1970 (serve_engine::pre_epoch_checks): harness-level checks attached to
 /// one ordinary Body::empty() case.
 fn pre_epoch_case(prop: &str, cases: &mut dyn Write, meta: &mut dyn Write) {
@@ -118,6 +130,7 @@ fn main() {
                 drop(emit_stream);
                 if prop == "C11" {
                     inline_wake_case(&prop, &mut cases, &mut meta);
+                    unwind_drop_case(&prop, &mut cases, &mut meta);
                 }
                 #[cfg(not(feature = "hooks"))]
                 if prop == "C11" {
@@ -291,6 +304,8 @@ fn main() {
                 #[cfg(feature = "hooks")]
                 "C10" => {
                     drop(emit_serve);
+                    unwind_drop_case(&prop, &mut cases, &mut meta);
+                    inline_wake_case(&prop, &mut cases, &mut meta);
                     let mut k = 0u64;
                     let mut total = 0usize;
                     let mut exhausted_all = true;
